@@ -265,3 +265,21 @@ Qed.
 (* a star import is refused *)
 Lemma lower_importfrom_star g p m lv : lower_importfrom g p m [("*", None)] lv = inr ERuntime.
 Proof. reflexivity. Qed.
+(* C14: the modules named by ONE import statement are imported in the order written, each by its own expression *)
+Definition import_bound (al : ident * option ident) : ident :=
+  match snd al with Some a => a | None => if has_dot (fst al) then before_dot (fst al) else fst al end.
+Definition import_value (al : ident * option ident) : expr :=
+  match snd al with
+  | None => if has_dot (fst al) then call (Name "__import__") [cstr (fst al)]
+            else call (Attribute (Name "__ol_importlib") "import_module") [cstr (fst al)]
+  | Some _ => call (Attribute (Name "__ol_importlib") "import_module") [cstr (fst al)]
+  end.
+
+Theorem lower_import_in_order : forall n names, n_kind n = NGlobal ->
+  lower_import n names = inl (map (fun al => NamedExpr (import_bound al) (import_value al)) names).
+Proof.
+  intros n names Hg. unfold lower_import. induction names as [|[nm a] r IH]; [reflexivity|].
+  cbn [rmap map]. rewrite IH. unfold import_bound, import_value. cbn [fst snd].
+  destruct a as [a|]; [|destruct (has_dot nm)]; unfold get_assign; rewrite Hg; reflexivity.
+Qed.
+
